@@ -40,6 +40,8 @@ def make(pid, flags, own_prefixes, nontrivial, extra_exc=()):
                 classes.append("has:cap-or-lambda-on-0.0")
         if any("workers" in sg for sg in case["segments"]):
             classes.append("has:restart-on-another-worker-count")
+        if case["spec"].get("load_dir") or case["spec"].get("data_dir"):
+            classes.append("has:other-load-or-data-directory")
         if any(sg.get("prelude") for sg in case["segments"]):
             classes.append("has:another-simulation-earlier-in-the-interpreter")
         if any(sg.get("handover") == "late" for sg in case["segments"]):
